@@ -178,11 +178,12 @@ theorem nullBlocks_spec (n : Nat) (hn : 0 < n) (M : List Nat) (hM : ∀ x ∈ M,
       apply decide_eq_decide.2
       rw [hkn]; omega
   unfold Md6.nullBlocks Padder.iterblocks
-  simp only [hm, Padder.loopCount, hk, Padder.blocklen, show 8 * n / 8 = n by omega] at hlast ⊢
+  simp only [hm, Padder.loopCount, hk] at hlast ⊢
   rw [hlast, htail]
   have hl2 : (Spec.Md6.block (8 * n) M m k).length = n :=
     block_length n M m hbl k (by rw [numBlocks_eq n m hn, hk]; omega) hn
-  simp only [Bool.false_eq_true, if_false, Nat.not_lt.2 hbl, gt_iff_lt, Bool.not_true, false_and, if_true,
+  simp only [Padder.finishTail, Padder.blocklen, show 8 * n / 8 = n by omega, Bool.false_eq_true, if_false,
+    Nat.not_lt.2 hbl, gt_iff_lt, Bool.not_true, false_and, if_true,
     List.length_drop, hl2, Nat.sub_self, Nat.lt_irrefl]
   have hpc : (if 0 + k * (8 * n) + (m - k * (8 * n)) = 0 + k * (8 * n) then
             ({ padflag := true, padcnt := 8 * n - (m - k * (8 * n)) } : PadState)
